@@ -136,6 +136,8 @@ class Exec:
                         and not any(isinstance(f, tuple) and f and f[0] == 'input' for f in e.facts):
                     # the first string bound in the entry function: the canonical form of the input
                     e.facts = e.facts | {('input', v.sid)}
+                    if isinstance(st.value, ast.Call) and isinstance(st.value.func, ast.Name) and st.value.func.id == 'compact':
+                        e.facts = e.facts | {('compactinput', v.sid)}
                 res.append(e)
             return res, []
         if isinstance(st, ast.AugAssign):
@@ -208,6 +210,9 @@ class Exec:
         s = e.find_sid(sids[0])
         if s is None:
             return
+        if ('compactinput', sids[0]) in e.facts and not any(isinstance(f, tuple) and f and f[0] == 'inputstr' for f in e.facts):
+            # the canonical input itself (as bound by `number = compact(number)`), for analyses that want to hand it to another validator
+            e.facts = e.facts | {('inputstr', s)}
         if any(isinstance(f, tuple) and f and f[0] == 'uncov' for f in e.facts):
             return
         covered = set()
